@@ -1,5 +1,5 @@
 PROP = {
-    "coq": ["C18"],
+    "coq": ["C18", "C18b"],
     "exhaustive": False,
     "rule": "Scenario alias: for both framings (MBAP, RTU over a scripted connection), all four encodings and the eight write calls taking "
             "a slice (WriteBytes, WriteRawBytes, WriteCoils, WriteRegisters, WriteUint32s, WriteUint64s, WriteFloat32s, WriteFloat64s): "
@@ -17,7 +17,8 @@ PROP = {
         "shares the array; arrays that are unreachable are never observed (garbage collection is transparent)",
         "the net.Conn given to the client honours the io.Reader/io.Writer contracts (Write does not modify or retain its argument, Read "
         "stores only into the buffer it is given); the scripted connection of the harness copies on Write and Feed",
-        "single caller goroutine per client (the calls hold the client lock); the caller does not store into slices it was returned",
+        "single caller goroutine per client (the calls hold the client lock); the caller's own code stores into arrays only between "
+        "calls, not while a call on the same data is in progress (stores between calls, into any array, are covered: C18b part S)",
     ],
 }
 
@@ -29,18 +30,34 @@ CLAIM = {
           "the bytes a call transmits are those of the value-level client model (C01) applied to the argument's content, hence the same "
           "call with the same slice sends the same bytes again, directly or after any history; whatever a call returns lives in an array "
           "allocated during that very call, and for every history of calls and caller allocations every earlier result (contents and "
-          "spare capacity) reads the same after any number of later events. The pinned upstream writeBytes is kept in the model and "
+          "spare capacity) reads the same after any number of later events. C18b: the VALUES are linked to the value-level model too - "
+          "c18_result_values: for every read call, heap, reply stream, framing and encoding, the elements of the returned slice read through "
+          "the heap after the call are exactly cr_res (client_call ...) (same Ok/Err; decoded lists; for ReadBytes/ReadRawBytes the bytes "
+          "after the in-place swap in the receive buffer and the cut of an odd quantity); c18_call_refines_value_model: every call as a "
+          "whole (result, frames, unread bytes, transaction counter) equals client_call on the argument's content; "
+          "c18_result_values_stable: re-read after any later history the values are still those; hence "
+          "c18_returned_slice_answers_request (C02 soundness read off the returned slice) and c18_no_out_of_range (no reply stream makes "
+          "a call index or slice out of range). The frame and value theorems also hold for calls that leave behind arbitrary arrays for "
+          "the receive buffers of skipped/rejected frames, the RTU discard buffer and the float decoders' temporaries (c18_leftover_*), "
+          "and for histories in which the caller's own code stores into any array between calls: the arrays that existed end up exactly "
+          "as the caller's stores alone leave them (c18_only_caller_stores_alter, c18_results_stable_but_for_caller_stores, "
+          "c18_history_values). The pinned upstream writeBytes is kept in the model and "
           "refuted in Coq by two evaluated witnesses (finding F4: little-endian WriteBytes swaps the caller's bytes, odd length with spare "
           "capacity writes the pad byte into the caller's array). The model is compared with the real client on every run: whole backing "
           "array after two calls, frames, results; histories with earlier results re-read and re-used as arguments.",
-  "note": "Model follows the tree with fix F4 (3f9fcea). partial: (1) receive buffers of frames the transport skips or rejects, the RTU "
-          "resynchronisation buffer (discard) and the two-level allocation of the float decoders are left out of the model (garbage at "
-          "once, never returned); encodeBools / uintNToBytes are modelled as 'allocate, then fill the new array' rather than store by "
-          "store; (2) the theorem linking the heap model to the value-level model covers the transmitted frames; that the returned "
-          "values equal the value-level results (C02) is checked by the harness on every run (model output = implementation output), "
-          "not proved; (3) Go's runtime (allocator, append growth, GC) is language semantics assumed as modelled: only 'in place iff it "
-          "fits' is used. Trusted: kernel, extraction, harness, scripted connection.",
+  "note": "Model follows the tree with fix F4 (3f9fcea). partial: (1) the extracted model that is compared with the implementation "
+          "(hp_call) leaves out the receive buffers of frames the transport skips or rejects, the RTU resynchronisation buffer (discard) "
+          "and the two-level allocation of the float decoders; C18b covers them by proof as ARBITRARY left-over arrays (hj_call, "
+          "Model/HeapJunk.v: any number, sizes, contents; present when the reception of the accepted frame starts / once the result is "
+          "built) rather than store by store, which is exact for memory that is created by make and never handed out, but this variant "
+          "is not itself run against the implementation (with no left-overs it IS hp_call: c18_leftover_none); encodeBools / uintNToBytes "
+          "are modelled as 'allocate, then fill the new array' rather than store by store; (2) the link of the returned VALUES to the "
+          "value-level results (C02) is now proved (C18b, part V) and no longer rests on the harness; the harness still compares model and "
+          "implementation results on every run; caller stores between calls are proved (C18b part S) but not exercised by the harness "
+          "(they are the caller's code, not the library's); (3) Go's runtime (allocator, append growth, GC) is language semantics "
+          "assumed as modelled: only 'in place iff it fits' is used. Trusted: kernel, extraction, harness, scripted connection.",
   "technique": "Coq proof (frame rule over a state+panic monad: calls store only into arrays allocated by themselves; Hoare-style "
-               "functional specification of the request builders linking to the C01 model; induction over histories; vm_compute "
-               "witnesses for the pinned code) + differential correspondence on slice geometries and call histories",
+               "functional specification of the request builders and of the receive path (buffer, validation, decoders, in-place "
+               "swap) linking to the C01/C02 model: the heap-level call refines client_call; induction over histories, with caller "
+               "stores commuting with the restriction to old arrays; vm_compute witnesses for the pinned code) + differential correspondence on slice geometries and call histories",
 }
